@@ -22,6 +22,9 @@ structure Cfg where
   closeGuarded : Bool            -- each clean-up runs in its own `try/except Exception`
   closeTerminatesIf : Bool       -- `if alive and (force is not False or not graceful): worker.terminate(timeout=timeout, **force_args)`
   closePassesForce : Bool        -- `force_args = {'force': force}` exactly when force is not None
+  closeMarksAfterJoin : Bool     -- `self._pool_closed = True` only behind the (successful) join of every clean-up thread
+  closeReraises : Bool           -- an exception that interrupts the join aborts the clean-up threads and is re-raised
+  closeSkipsWhenClosed : Bool    -- `if self._pool_closed: return` at the top
 deriving Repr, DecidableEq
 
 /-- a worker as the registry sees it -/
@@ -70,6 +73,28 @@ def cleanupWorker (cfg : Cfg) (force : Option Bool) (graceful : Bool) (w : W) : 
 
 def closeAll (cfg : Cfg) (force : Option Bool) (graceful : Bool) (reg : Reg) : Reg :=
   if cfg.closeVisitsAll && cfg.closeGuarded then reg.map (cleanupWorker cfg force graceful) else reg
+
+/-! ### leaving the pool, possibly interrupted
+
+`close()` / `terminate()` / `__exit__` all end in `_close`. A `BaseException` (Ctrl-C) can interrupt the thread that waits
+for the clean-up threads: they are aborted wherever they are - no worker is known to be dead - and the exception goes on to
+the caller; leaving a `with` block then calls `terminate()`. -/
+
+structure PoolSt where
+  reg : Reg
+  closed : Bool
+deriving Repr, DecidableEq
+
+/-- a complete `_close(timeout, force, graceful)` -/
+def closePool (cfg : Cfg) (force : Option Bool) (graceful : Bool) (s : PoolSt) : PoolSt :=
+  if cfg.closeSkipsWhenClosed && s.closed then s
+  else { reg := closeAll cfg force graceful s.reg, closed := true }
+
+/-- `_close` interrupted while joining: nobody was stopped for sure; the pool counts as closed only if the flag is set on
+    that path too -/
+def closeInterrupted (cfg : Cfg) (s : PoolSt) : PoolSt :=
+  if cfg.closeSkipsWhenClosed && s.closed then s
+  else { s with closed := !cfg.closeMarksAfterJoin }
 
 /-! ### add_worker -/
 
